@@ -91,7 +91,7 @@ def _drive_sched(args):
                 dead[i] = k != 'rec'
         for e in events:
             e.pop('_exc', None)
-        out.append({'tid': si, 'loc': True, 'strict': True, 'insts': [{'blk': b} for b in blk], 'events': events,
+        out.append({'tid': si, 'loc': True, 'strict': True, 'cols': [], 'insts': [{'blk': b} for b in blk], 'events': events,
                     '_desc': 'schedule %s (instances 1,2 writers, 3,4 readers; blocked=%s)' % (list(sched), blk)})
     return out
 
@@ -120,7 +120,7 @@ def _drive_files(args):
         except BaseException as ex:  # noqa
             events.append(ipmc.iev(1, 'next', out='exc', n=-1))
             events[-1]['_observed'] = drv.exc_outcome(ex)
-            out.append({'tid': tid, 'loc': True, 'strict': True, 'insts': [{'blk': blocked}], 'events': events,
+            out.append({'tid': tid, 'loc': True, 'strict': True, 'cols': [], 'insts': [{'blk': blocked}], 'events': events,
                         '_desc': 'writer raised on a well-formed message list'})
             continue
         data = f.getvalue()
@@ -129,7 +129,7 @@ def _drive_files(args):
         events += ipmc.read_all_events(1, data, codec, bc, blocked)
         for e in events:
             e.pop('_exc', None)
-        out.append({'tid': tid, 'loc': True, 'strict': True, 'insts': [{'blk': blocked}], 'events': events,
+        out.append({'tid': tid, 'loc': True, 'strict': True, 'cols': [], 'insts': [{'blk': blocked}], 'events': events,
                     '_desc': '%d messages, %s, %s, file of %d bytes' % (n, codec, '1014' if blocked else 'vbs', len(data))})
     return out
 
@@ -156,7 +156,7 @@ def _drive_sizes(args):
         events += [ipmc.iev(1, 'fin'), ipmc.iev(1, 'file', b=data)] + ipmc.read_all_events(1, data, codec, bc, blocked)
         for e in events:
             e.pop('_exc', None)
-        out.append({'tid': tid, 'loc': True, 'strict': True, 'insts': [{'blk': blocked}], 'events': events,
+        out.append({'tid': tid, 'loc': True, 'strict': True, 'cols': [], 'insts': [{'blk': blocked}], 'events': events,
                     '_desc': 'blocked %s file whose %s record is %d bytes' % (codec, 'second' if n % 3 == 0 else 'first', n)})
     return out
 
